@@ -245,7 +245,9 @@ def _corr_dump(ctx):
         lines, ids, pgns = _history(rng, rng.randint(15, 40))
         kind, dump_on, dump_pgns = _dump_configs(rng, ids, pgns, KINDS[it % len(KINDS)])
         net = rng.random() < 0.5
-        prefs = U.random_prefs(rng) if rng.random() < 0.4 else {}
+        from nmea2000.consts import PhysicalQuantities as PQ
+        full = {PQ.TEMPERATURE: rng.choice(["c", "F"]), PQ.ANGLE: "Deg", PQ.SPEED: "KTS", PQ.PRESSURE: rng.choice(["bar", "PSI"])}
+        prefs = full if it % 2 == 0 else (U.random_prefs(rng) if rng.random() < 0.4 else {})
         with Md5Proxy() as mp, NumProxy() as npx:
             dec, ret, text = _run_real(lines, dump_on, dump_pgns, net, prefs)
             # the same history through a plain decoder: what the per-PGN functions built, and the addressing
@@ -265,9 +267,12 @@ def _corr_dump(ctx):
                                   _strip_lit(m)) for m in evs)
             cfg = (f"(mkCfg {cbool(net)} {U.prefs_lit(dec.preferred_units)} {cbool(dump_on)} "
                    f"{clist(cz(x) for x in dec.dump_include_pgns)} {clist(cbytes(x.encode()) for x in dec.dump_include_pgns_ids)})")
-            obs_lines = clist(jlit(H_loads(t)) for t in text.splitlines())
-            if text and not text.endswith("\n"):
-                raise Unrepresentable("dump does not end with a newline")
+            try:
+                if text and not text.endswith("\n"):
+                    raise ValueError("dump does not end with a newline")
+                obs_lines = clist(jlit(H_loads(t)) for t in text.splitlines())
+            except ValueError:
+                obs_lines = "[JNull]"      # not one JSON document per line: cannot equal the model's lines
             obs = ctuple(clist(msg_lit(m) for m in ret), obs_lines)
             ft = fstr_table(evs)
             cases.append(ctuple(ctuple(cfg, ev_lit), ctuple(ctuple(mt, ft), nt), obs))
@@ -429,12 +434,14 @@ def search(ctx):
         emit(_check_json({"kind": "json", "pgn": d["PGN"], "payload": p.to_bytes(n, "little").hex()}))
     emit(_check_json(nan_witness()))
     emit(_check_dump(dumpid_witness()))
-    for _ in range(ctx.n(30, 200)):
+    from nmea2000.consts import PhysicalQuantities as PQ
+    for it in range(ctx.n(30, 200)):
         lines, ids, pgns = _history(rng, rng.randint(10, 30))
         # without the >64-bit claim (to_json of later messages of that source raises by design, see ASSUMPTIONS)
         lines = [ln for ln in lines if not ln.split(",")[2] == "60928" or ln.split(",")[5] == "8"]
-        kind, dump_on, dump_pgns = _dump_configs(rng, ids, pgns)
-        prefs = U.random_prefs(rng) if rng.random() < 0.3 else {}
+        kind, dump_on, dump_pgns = _dump_configs(rng, ids, pgns, KINDS[it % len(KINDS)])
+        prefs = ({PQ.TEMPERATURE: "C", PQ.ANGLE: "deg", PQ.SPEED: "kts", PQ.PRESSURE: "Bar"} if it % 2 == 0 else
+                 (U.random_prefs(rng) if rng.random() < 0.3 else {}))
         emit(_check_dump({"kind": "dump", "dump_pgns": dump_pgns, "net": rng.random() < 0.5, "lines": lines,
                           "prefs": {k.name: v for k, v in prefs.items()}}))
     return out
